@@ -12,7 +12,8 @@ import os
 import sys
 
 sys.path.insert(0, os.path.join(os.path.dirname(os.path.abspath(__file__)), '..'))
-from common import Check
+from common import Check, coq_make
+from props import t_C13
 from harness import enga
 from harness import gen_drivers as gd
 from harness import gen_comb as gc
@@ -109,6 +110,9 @@ def oracle(top, res, dist):
             return 'finding:' + key
         except gd.Malformed as e:
             return 'outside-precondition: malformed leaf ' + str(e)
+        except gc.Undrawn as e:
+            note_failure(f'child-not-sampled/{root}', top, f'{expr}, call {k}: {e}', 'every child sampled once per call', str(e))
+            return 'fail'
         if o[0] == 'raises':
             key = ('+'.join(sorted(tags)) or f'raises/{root}') + '/' + o[1].split(':')[0]
             note_failure(key, top, f'{expr}, call {k}: get_examples() raised {o[1]}; the sub-generators\' samples determine {len(ref)} rows',
@@ -294,7 +298,16 @@ def main():
                'with leaf sizes 1..8 and 1..3 dimensions, typed random trees up to depth 4 beyond; distinct = distinct (tree, calls, rng '
                'script); non-trivial = depth >= 2')
     ck.step_hygiene()
-    proved = ck.step_prove('P_C13')
+    # regenerate coq/gen/Gen_C13.v from the combinator classes (fail-closed translator), then re-check the theorems,
+    # among them the equalities of the generated definitions with the model
+    ok, info = t_C13.setup_generate()
+    ck.extra['generated'] = {k: info.get(k) for k in ('lines', 'changed')} if ok else None
+    if ok:
+        proved = ck.step_prove('P_C13')
+    else:
+        ck.broke('translator-refusal', f'Gen_C13:{info.get("target")}', info['error'])
+        proved = False
+    model_ok = proved or coq_make(['model/GenComb.vo'])[0]      # the correspondence needs the model only
     torch = enga.import_repo()
     from neurodiffeq import generators as G
     SpyLeaf = gd.make_leaf_class(torch, G.BaseGenerator)
@@ -305,7 +318,7 @@ def main():
         top = rp.get('input')
         if isinstance(top, dict) and 'tree' in top:
             cases = explore(ck, torch, G, SpyLeaf, [top], dist, opdist)
-            for lbl in ck.step_cases('replay', PREAMBLE, cases):
+            for lbl in (ck.step_cases('replay', PREAMBLE, cases) if model_ok else []):
                 ck.broke('correspondence-broken', 'cases:replay', f'model and implementation differ on {lbl[:400]}')
         ck.extra['input_distribution'] = {'classes': dist, 'ops': opdist}
         flush_failures(ck)
@@ -324,7 +337,7 @@ def main():
     ck.extra['exhaustive_note'] = 'all depth<=2 shapes (every combinator over leaves; depth 3 unary-over-binary and binary-over-unary in thorough) enumerated'
     ck.extra['coq_cases'] = len(cases)
 
-    if proved:
+    if model_ok:
         bad = ck.step_cases('corr', PREAMBLE, cases, shard=150)
         for lbl in bad[:3]:
             top = json.loads(lbl)
@@ -352,7 +365,10 @@ def main():
     ck.finish(trusted_extra=TRUSTED, assumptions=ASSUME)
 
 
-TRUSTED = ['coq/model/GenComb.v is a hand-written model of the combinator classes of generators.py (read line by line: isinstance '
+TRUSTED = ['coq/gen/Gen_C13.v (constructor size arithmetic / mesh flattening / ensemble check, StaticGenerator caching, the list code of '
+           'FilterGenerator and ResampleGenerator.get_examples) is regenerated from the source on every run by the fail-closed translator '
+           'tools/props/t_C13.py + tools/harness/gen_pyast.py and PROVED equal to the model (C13_gen_*); translator and coq/model/PySem.v trusted',
+           'coq/model/GenComb.v is a hand-written model of the combinator classes of generators.py (read line by line: isinstance '
            'dispatch, zip truncation, construction-time .size, size-updating filter, child sampled before the index draw over the rows returned); tied to the code by '
            'the in-kernel correspondence cases and the implementation-level reference interpreter on every run',
            'modelled not verified: torch.cat = append, boolean-mask and index-vector indexing = select / gather, '
